@@ -295,6 +295,70 @@ def run_e2e(ctx):
             ctx.sample({"family": "e2e-flag-pair", "schema": meta[0][6], "doc": b.case(cid)["jobs"][0]["doc"], "obs": b.case(cid)["jobs"][0]["obs"]["v"]})
 
 
+def run_shapes(ctx):
+    """the same flag pair with the bounded integer in other surroundings than a plain property: array items, map values, a nested object, an inline allOf
+    member, and a DECLARED object that has `properties` of its own next to an `allOf` (root and definition) - whatever the generator makes of the shape,
+    the flag must not change which documents are accepted.  (allOf whose first member is a `$ref` is the recorded finding C15-minsized-allof-ref-loses-bounds.)"""
+    b = Batch(ctx, "c15s")
+    meta = []
+    in_range = {}
+    n = 0
+    for lo, hi in ((0, 255), (-128, 127), (0, 65535), (1, 100)):
+        leaf = {"type": "integer", "minimum": lo, "maximum": hi}
+        extra = {"type": "object", "properties": {"tag": {"type": "string"}}}
+        shapes = {
+            "items": ({"type": "object", "properties": {"l": {"type": "array", "items": leaf}}}, lambda v: {"l": [lo, v]}),
+            "map-values": ({"type": "object", "properties": {"m": {"type": "object", "additionalProperties": leaf}}}, lambda v: {"m": {"k": v}}),
+            "nested": ({"type": "object", "properties": {"o": {"type": "object", "properties": {"x": leaf}, "required": ["x"]}}}, lambda v: {"o": {"x": v}}),
+            "inline-allOf-member": ({"type": "object", "properties": {"u": {"allOf": [{"type": "object", "properties": {"x": leaf}}, extra]}}}, lambda v: {"u": {"x": v, "tag": "t"}}),
+            "root-properties-next-to-allOf": ({"type": "object", "properties": {"level": leaf}, "allOf": [extra]}, lambda v: {"level": v, "tag": "t"}),
+            "definition-properties-next-to-allOf": ({"type": "object", "$defs": {"Device": {"type": "object", "properties": {"level": leaf}, "allOf": [extra]}},
+                                                     "properties": {"d": {"$ref": "#/$defs/Device"}}}, lambda v: {"d": {"level": v, "tag": "t"}}),
+            "definition-properties-next-to-anyOf": ({"type": "object", "$defs": {"Device": {"type": "object", "properties": {"level": leaf}, "anyOf": [extra, {"type": "object", "properties": {"n": {"type": "integer"}}}]}},
+                                                     "properties": {"d": {"$ref": "#/$defs/Device"}}}, lambda v: {"d": {"level": v, "tag": "t"}}),
+        }
+        vals = sorted(set([lo - 1, lo, lo + 1, hi - 1, hi, hi + 1, 70000, -70000, 256, -129]))
+        for sn, (schema, mk) in shapes.items():
+            in_range[n] = (lambda lo_, hi_: (lambda v: lo_ <= v <= hi_))(lo, hi)
+            for flag in (False, True):
+                cid = "s%d%s" % (n, "on" if flag else "off")
+                jobs = [{"t": "S", "doc": json.dumps(mk(v)), "x": v} for v in vals]
+                b.add({"id": cid, "cfg": {"min_sized_ints": flag, "tags": ["json"], "mappings": [{"id": "", "root": "S", "package": cid, "output": cid + "/gen.go"}]},
+                       "files": {"s.json": json.dumps(schema)}, "argv": ["s.json"], "jobs": jobs})
+                meta.append((cid, n, flag, sn, schema))
+            n += 1
+    b.run()
+    by = {}
+    for cid, i, flag, sn, schema in meta:
+        by.setdefault(i, {})[flag] = (b.case(cid), sn, schema)
+    nviol = 0
+    for i, d in sorted(by.items()):
+        (off, sn, schema), (on, _, _) = d[False], d[True]
+        okoff, okon = off["gen"]["ok"] and off["build_ok"], on["gen"]["ok"] and on["build_ok"]
+        ctx.count({"shape": sn, "s": schema}, True, "shapes-flag-pair/" + sn)
+        if okoff != okon:
+            if nviol < 4:
+                ctx.violation("oracle", {"kind": "e2e", "files": on["files"], "argv": on["argv"], "cfg_on": on["cfg"], "shape": sn, "gen_on": on["gen"].get("err"), "build_err_on": on["build_err"],
+                                         "gen_off": off["gen"].get("err"), "build_err_off": off["build_err"]},
+                              "%s: the schema is generated and builds with the flag %s only" % (sn, "off" if okoff else "on"))
+            nviol += 1
+            continue
+        if not okoff:
+            continue                   # refused or unbuildable either way: not this property's business
+        ctx.cov["programs"] += 2
+        for jo, jn in zip(off["jobs"], on["jobs"]):
+            if sn in ("items", "map-values") and jo["obs"]["v"] == "ACC" and jn["obs"]["v"] == "REJ" and not in_range.get(i, lambda v: True)(jo["x"]):
+                continue               # recorded finding C15-inline-item-bounds-enforced-only-by-sized-type (a consequence of D9)
+            if jo["obs"]["v"] != jn["obs"]["v"]:
+                if nviol < 4:
+                    ctx.violation("oracle", {"kind": "e2e", "files": on["files"], "argv": on["argv"], "doc": jo["doc"], "verdict_flag_off": jo["obs"]["v"], "verdict_flag_on": jn["obs"]["v"],
+                                             "cfg_on": on["cfg"], "shape": sn, "err_on": jn["obs"].get("err"), "err_off": jo["obs"].get("err")},
+                                  "%s: --min-sized-ints changes the verdict of %s: off=%s on=%s" % (sn, jo["doc"], jo["obs"]["v"], jn["obs"]["v"]))
+                nviol += 1
+                break
+    return nviol
+
+
 def replay_findings(ctx):
     for f in ctx.findings():
         w = f.get("witness", {})
@@ -318,6 +382,7 @@ def run(ctx):
     ctx.proof_step(PROPS_FILE)
     run_direct(ctx)
     run_e2e(ctx)
+    run_shapes(ctx)
     from vlib import regress
     regress.search(ctx, {"C15"})          # the shape-agnostic search step (DESIGN.md 12.8)
     replay_findings(ctx)
